@@ -20,6 +20,24 @@ CHECKS.update({
  'C07': dict(cat='proof', text="Lean theorems generic in the element type: identity pass-through (both directions), the conditioner sees only the identity split, transformed feature depends only on itself + identity features + context, index partition of the executable mask split, image parameter layout; tied to the code bitwise (identity features, conditioner input) over every non-trivial mask subset for small feature counts.",
              tech="Lean 4 proof + bitwise model/implementation correspondence", ref="DESIGN.md §5 C07"),
 })
+CHECKS.update({
+ 'C04': dict(cat='proof', text="Lean theorems for all R, n: repeat_rows/merge/split index laws, row pairing (flat row i*n+j pairs noise (i,j) with context row i), sample = Tinv(noise; emb c_i) and logp = base - ldInv, consistency with log_prob under ldInv = -ld∘Tinv, and the push-forward density (Measure.map form, 1-D and n-D event probabilities); tied to the code by tagged integer tensors through the real Flow/Distribution plumbing (exact) and seeded noise reproduction on real flows. RNG and the law of large numbers are trusted; KS test only in the thorough tier.",
+             tech="Lean 4 proof + exact/seeded correspondence", ref="DESIGN.md §5 C04"),
+ 'C08': dict(cat='proof', text="Lean theorems about the executable wrapper model (no bound on parts, stages, rank, size, split dim): cascade = left fold, composite forward in order / inverse reversed with summed log-dets, InverseTransform swaps directions, multiscale shape bookkeeping ((n+1)/2, n/2, sizes sum), stage-prefix routing, routing is a permutation for identity stages, inverse∘forward and forward∘inverse; tied bit-exactly to the code on random nestings over non-commuting exact atoms, the full multiscale grid and 60 error-contract cases.",
+             tech="Lean 4 proof + exact correspondence", ref="DESIGN.md §5 C08"),
+ 'C10': dict(cat='proof', text="Lean state machine of the Linear cache (current code: load_state_dict and dtype conversion invalidate) with an inductive invariant; theorem: for EVERY history over {train, eval, use_cache, forward, inverse, update, load, cast, forward+backward} the cached run equals the uncached reference, under two explicit hypotheses (updates only in training mode — the property's alphabet — and no repeated backward through one cache epoch); the second is a genuine defect kept as known finding F11c with a decide-proved counterexample. Tied by lock-step histories on the five classes (white-box cache state, outputs/log-dets/gradients vs recomputation).",
+             tech="Lean 4 invariant proof over histories + lock-step correspondence", ref="DESIGN.md §5 C10"),
+ 'C11': dict(cat='proof', text="Lean theorems: LU/QR/SVD/Householder matrix identities (W = LU / QR / Q1 D Q2, weight_inverse two-sided inverse, logabsdet = log|det W|, Householder (sequences) orthogonal with |det| = 1, matrix() = Q), executed index placement (tril/triu order), executed triangular solves, initial q-vectors are unit basis vectors for ALL constructor-accepted sizes; tied to the code on accessors/forward/inverse for features 1-6 x Householder counts 1-13 x init modes x dtypes, constructor grid exact. NaiveLinear's LU/inverse/slogdet by specification.",
+             tech="Lean 4 proof + model/implementation correspondence", ref="DESIGN.md §5 C11"),
+ 'C12': dict(cat='proof', text="Lean theorems: boolean-mask gather/scatter equals row-wise routing (any batch length), row-wise maps give row i from row i alone, are permutation-equivariant and insensitive to other rows, image parameter layout; tied to the code by whole-batch implementation vs the row-wise model on batch sizes 1,2,3,7 and conditioner batch-vs-row comparison.",
+             tech="Lean 4 proof + model/implementation correspondence", ref="DESIGN.md §5 C12"),
+ 'C17': dict(cat='proof', text="Lean theorems on the executable model for ANY scalar semantics (Float, Float32, reals): a restricted transform rejects an element iff the comparison the code makes says it is outside (Exp/Tanh/Sigmoid/Logit/Cauchy inverses; bounded splines reject outside the interval of the requested direction; tails accept everything outside), and over the reals every accepted input gets an in-range bin index for any box magnitude. The rounding-dependent half (eps absorption at large bounds in float32) is carried by executing the model in the same precision on boundary atoms +-1ulp.",
+             tech="Lean 4 proof + same-precision correspondence on boundary atoms", ref="DESIGN.md §5 C17"),
+ 'C18': dict(cat='proof', text="Lean theorems for any class meeting a hook contract, any event shape, any R: log_prob shape and ValueError iff row mismatch, sample shapes with/without context, TypeError iff not a positive int (bool counts as int), batched sampling gives n draws per context row for every n, b (dividing or not), sample_and_log_prob shapes match, per-class contract instances; tied exactly on an exhaustive grid (18k cells) of classes x n x batch_size x context x event shapes. Known finding F15 (MADEMoG.sample without context).",
+             tech="Lean 4 proof + exhaustive exact correspondence", ref="DESIGN.md §5 C18"),
+ 'C19': dict(cat='other', text="PARTIAL. Proved: only the dtype clause, on a promotion-lattice model (results of ops over dimensioned float-d leaves plus weak leaves have dtype d). The numeric clause (float32 agrees with float64 to single-precision accuracy scaled by conditioning, finite) is NOT a theorem: it is decided by executing the same Lean definitions in Float32 and Float against the float32 implementation and its float64 twin, plus result-dtype checks.",
+             tech="Lean 4 proof (dtype clause) + Float32/Float model correspondence (numeric clause)", ref="DESIGN.md §5 C19, §8.1"),
+})
 NOT_YET = {}
 
 def main():
